@@ -85,23 +85,23 @@ theorem zip?_total (f : XR → XR → Option XR) (hf : ∀ x y, (f x y).isSome) 
 
 theorem unop_total {op : String} (h : pointwiseUn.contains op = true) (x : XR) : (unop op x).isSome := by
   simp only [pointwiseUn, List.contains_eq_mem, List.mem_cons, List.mem_nil_iff, or_false, decide_eq_true_eq] at h
-  rcases h with h | h | h | h | h <;> subst h <;> simp [unop]
+  rcases h with h | h | h | h <;> subst h <;> simp [unop]
 
 theorem binop_total {op : String} (h : pointwiseBin.contains op = true) (x y : XR) : (binop op x y).isSome := by
   simp only [pointwiseBin, List.contains_eq_mem, List.mem_cons, List.mem_nil_iff, or_false, decide_eq_true_eq] at h
-  rcases h with h | h | h | h | h | h | h | h | h | h | h | h | h | h <;> subst h <;> simp [binop]
+  rcases h with h | h | h | h | h | h | h | h | h | h | h <;> subst h <;> simp [binop]
 
 theorem evalUnary_pointwise (op : Op) (h : pointwiseUn.contains op.name = true) (s : Sem) :
     evalUnary op s = s.map? (unop op.name) := by
   simp only [pointwiseUn, List.contains_eq_mem, List.mem_cons, List.mem_nil_iff, or_false, decide_eq_true_eq] at h
   unfold evalUnary
-  rcases h with h | h | h | h | h <;> rw [h] <;> simp [reductionOps, List.lookup]
+  rcases h with h | h | h | h <;> rw [h] <;> simp [reductionOps, List.lookup]
 
 theorem evalBinary_pointwise (op : Op) (h : pointwiseBin.contains op.name = true) (a b : Sem) :
     evalBinary op a b = Sem.zip? (binop op.name) a b := by
   simp only [pointwiseBin, List.contains_eq_mem, List.mem_cons, List.mem_nil_iff, or_false, decide_eq_true_eq] at h
   unfold evalBinary
-  rcases h with h | h | h | h | h | h | h | h | h | h | h | h | h | h <;> rw [h] <;> rfl
+  rcases h with h | h | h | h | h | h | h | h | h | h | h <;> rw [h] <;> rfl
 
 /-- Tensor.eager_unary: pointwise on the data, inputs unchanged. -/
 theorem unary_sem (op : Op) (a r : NT) (env : Env) (h : unary op.name a = some r) :
